@@ -11,6 +11,7 @@ for d in sorted(glob.glob(os.path.join(V, "seeded", "C*", "*"))):
     note = " ".join(m.get("needs_to_manifest", "").split())[:170].replace("|", "/")
     res = []
     for p, r in sorted(m.get("checks", {}).items()):
+        if not isinstance(r, dict): res.append("%s: %s" % (p, str(r)[:60])); continue
         kinds = ", ".join(k[:40] for k in r.get("kinds", [])[:3])
         res.append("%s: %s%s" % (p, r["result"], " (" + kinds + ")" if kinds else ""))
     rows.append("| `%s` | %s | %s | %s |" % (os.path.relpath(d, V), ", ".join(files), note, "; ".join(res)))
